@@ -555,7 +555,7 @@ ASSUMPTIONS = [
     'partial operations (/ sqrt ln) carry preconditions instead of producing NaN/inf',
     'library functions exp cos sin ln log2 tanh sqrt powi are uninterpreted with the textbook axioms listed in trusted_base',
     'std VecDeque/Vec/Option behave as specified by vstd and by the assume_specification items listed in trusted_base',
-    'extraction rules M1-M5, R1-R13, F1, L1 are semantics preserving (bodies otherwise byte-identical; see extraction_rules_applied and source_hashes); checked on every run, within a bound, by translation validation: the generated text compiled by Verus with an executable scalar model agrees bit for bit with the real crate on the replayed cases (extraction_translation_validation)',
+    'extraction rules M1-M6, R1-R15, F1, L1, P1 are semantics preserving (bodies otherwise byte-identical; see extraction_rules_applied and source_hashes); checked on every run, within a bound, by translation validation: the generated text compiled by Verus with an executable scalar model agrees bit for bit with the real crate on the replayed cases (extraction_translation_validation)',
     'the std contracts assumed by the shim (min_by/max_by, last().copied(), clone of scalar buffers, VecDeque front/back/get/is_empty/index, iteration order) are checked by Kani on the real std for sequences of at most 3 elements (thorough tier of C02/C15/C17; assumed_std_contracts_bounded_check), otherwise assumed',
     'monotone usize counters do not reach 2^64 (part of `accepts`)',
     'termination of the verified functions is not claimed beyond the decreases clauses Verus requires',
